@@ -516,9 +516,22 @@ func c20BuildNewCommit(k *eng.Check) {
 
 // (6b) doFastForward: ancestry test before the update, on the head the closure compares
 func c20FastForwardHost(k *eng.Check, cls []*dsClosure) {
-	fn := k.Fn("(*store/datas.database).doFastForward")
-	if fn == nil {
+	top := k.Fn("(*store/datas.database).doFastForward")
+	if top == nil {
 		return
+	}
+	// the ancestry test and the update may live in single-caller phase helpers: the test is analysed in the function
+	// that calls FindCommonAncestor, the path rules over the helper tree, and the tested head / dataset are followed
+	// through the phase calls into the closure of the updating phase
+	fam := k.C.FamilyOf(top, k.C.Funcs("store/datas"), 2)
+	fn := top
+	if len(eng.Calls(top, eng.Static("store/datas.FindCommonAncestor"), false)) == 0 {
+		for _, g := range fam[1:] {
+			if len(eng.Calls(g, eng.Static("store/datas.FindCommonAncestor"), false)) > 0 {
+				fn = g
+				k.FuncsSeen[g] = true
+			}
+		}
 	}
 	const mha = "(store/datas.Dataset).MaybeHeadAddr"
 	upd := eng.CallSet(fn, eng.Static(dsFnUpdate))
@@ -577,9 +590,26 @@ func c20FastForwardHost(k *eng.Check, cls []*dsClosure) {
 			((isHead(c.Call.Args[0]) && isAncestor(c.Call.Args[1])) || (isHead(c.Call.Args[1]) && isAncestor(c.Call.Args[0])))
 	}, false)
 	noMerge.Union(dsCmpEdges(fn, isHead, isAncestor, true))
-	k.OnlyAfter("ff-ancestry", fn, "update is entered only after FindCommonAncestor succeeded (or the dataset has no head)", upd, 1, eng.UnionOf(eng.OkCut(fca[0]), noHead))
-	k.OnlyAfter("ff-ancestry", fn, "update is entered only when a common ancestor was found (or the dataset has no head)", upd, 1, eng.UnionOf(found, noHead))
-	k.OnlyAfter("ff-ancestry", fn, "update is entered only when mergeNeeded(head, ancestor) is false (or the dataset has no head)", upd, 1, eng.UnionOf(noMerge, noHead))
+	if fn == top {
+		k.OnlyAfter("ff-ancestry", fn, "update is entered only after FindCommonAncestor succeeded (or the dataset has no head)", upd, 1, eng.UnionOf(eng.OkCut(fca[0]), noHead))
+		k.OnlyAfter("ff-ancestry", fn, "update is entered only when a common ancestor was found (or the dataset has no head)", upd, 1, eng.UnionOf(found, noHead))
+		k.OnlyAfter("ff-ancestry", fn, "update is entered only when mergeNeeded(head, ancestor) is false (or the dataset has no head)", upd, 1, eng.UnionOf(noMerge, noHead))
+	} else {
+		updF := func(g *ssa.Function) *eng.Set { return eng.CallSet(g, eng.Static(dsFnUpdate)) }
+		only := func(s *eng.Set) eng.FamSets {
+			return func(g *ssa.Function) *eng.Set {
+				if g == fn {
+					return s
+				}
+				return eng.NewSet()
+			}
+		}
+		k.OnlyAfterFam("ff-ancestry", fam, "update is entered only after FindCommonAncestor succeeded (or the dataset has no head)", updF, 1, only(eng.UnionOf(eng.OkCut(fca[0]), noHead)))
+		k.OnlyAfterFam("ff-ancestry", fam, "update is entered only when a common ancestor was found (or the dataset has no head)", updF, 1, only(eng.UnionOf(found, noHead)))
+		k.OnlyAfterFam("ff-ancestry", fam, "update is entered only when mergeNeeded(head, ancestor) is false (or the dataset has no head)", updF, 1, only(eng.UnionOf(noMerge, noHead)))
+		c20FastForwardSplitRoles(k, cls, top, fn, fam, isHead)
+		return
+	}
 	// the head whose ancestry was tested is the expected address of the closure's comparison, and the
 	// compared key is the ID of the same dataset
 	n := 0
@@ -866,4 +896,100 @@ func c20CleanViaHelper(k *eng.Check, cl *dsClosure, allowDirtyFlag bool) bool {
 		return true
 	}
 	return false
+}
+
+// c20FastForwardSplitRoles: doFastForward split into a checking phase (check) and an updating phase: the address the
+// updating phase's closure compares the stored head with is the head the checking phase tested (it travels as a result
+// of the check call and an argument of the update-phase call), and both phases work on the same dataset.
+func c20FastForwardSplitRoles(k *eng.Check, cls []*dsClosure, top, check *ssa.Function, fam []*ssa.Function, isHead func(ssa.Value) bool) {
+	callTo := func(h *ssa.Function) *ssa.Call {
+		var out *ssa.Call
+		for _, ci := range eng.Calls(top, func(q ssa.CallInstruction) bool { return q.Common().StaticCallee() == h }, false) {
+			if c, ok := ci.(*ssa.Call); ok {
+				if out != nil {
+					return nil
+				}
+				out = c
+			}
+		}
+		return out
+	}
+	paramIdx := func(f *ssa.Function, v ssa.Value) int {
+		// v is a parameter of f, or the cell a captured parameter lives in
+		if a, ok := v.(*ssa.Alloc); ok {
+			if st := dsSingleStore(a); st != nil {
+				v = st.Val
+			}
+		}
+		for i, p := range f.Params {
+			if ssa.Value(p) == v {
+				return i
+			}
+		}
+		return -1
+	}
+	checkCall := callTo(check)
+	inFam := map[*ssa.Function]bool{}
+	for _, g := range fam {
+		inFam[g] = true
+	}
+	// the dataset whose head the checking phase read
+	var checkDsArg ssa.Value
+	if checkCall != nil {
+		for _, ci := range eng.Calls(check, eng.Static("(store/datas.Dataset).MaybeHeadAddr"), false) {
+			if p, ok := c20VarOf(ci.Common().Args[0]).(*ssa.Parameter); ok {
+				if i := paramIdx(check, p); i >= 0 && i < len(checkCall.Call.Args) {
+					checkDsArg = eng.Origin(checkCall.Call.Args[i])
+				}
+			}
+		}
+	}
+	n := 0
+	for _, cl := range cls {
+		apply := eng.Outermost(cl.Host)
+		if !inFam[apply] || apply == check || cl.MC == nil {
+			continue
+		}
+		applyCall := callTo(apply)
+		for _, e := range cl.Edits {
+			for _, g := range cl.guards(e.Key) {
+				if !g.Captured {
+					continue
+				}
+				n++
+				same := len(g.FVs) == 1 && checkCall != nil && applyCall != nil
+				if same {
+					pi := paramIdx(apply, dsFreeBinding(cl.MC, g.FVs[0]))
+					same = pi >= 0 && pi < len(applyCall.Call.Args)
+					if same {
+						ex, isEx := eng.Origin(applyCall.Call.Args[pi]).(*ssa.Extract)
+						same = isEx && ex.Tuple == ssa.Value(checkCall)
+						if same {
+							// every success return of the checking phase answers the tested head at that position
+							nRet := 0
+							for in := range eng.SuccessExits(check).I {
+								ret, isRet := in.(*ssa.Return)
+								if !isRet || ex.Index >= len(ret.Results) || !isHead(eng.Unspill(ret, ex.Index)) {
+									same = false
+								}
+								nRet++
+							}
+							same = same && nRet > 0
+						}
+					}
+				}
+				k.Require("ff-ancestry", eng.Name(cl.Fn)+"#expected-is-tested-head", "the address the closure compares the stored head with is the head whose ancestry was tested (handed from the checking phase to the updating phase)", same, k.C.InstrPos(g.If), "the updating phase's expected address is not the head the checking phase returned")
+				dsOK := false
+				if applyCall != nil && checkDsArg != nil {
+					if ri := paramIdx(apply, c20DatasetOfKey(cl, e.Key)); ri >= 0 && ri < len(applyCall.Call.Args) {
+						dsOK = eng.Origin(applyCall.Call.Args[ri]) == checkDsArg
+					}
+				}
+				k.Require("ff-ancestry", eng.Name(cl.Fn)+"#same-dataset", "the compared/edited key is the ID of the dataset whose head was tested", dsOK, k.C.InstrPos(e.Call), "the two phases are given different datasets")
+			}
+		}
+	}
+	if n < 1 {
+		k.Unknown("ff-ancestry", eng.Name(top)+"#closure", "the compare-and-set comparison of the fast-forward closure", "not found in the phase helpers")
+	}
 }
